@@ -65,3 +65,6 @@ Print Assumptions C14_rej_ntt_exact_768_bytes.
 Print Assumptions C14_rej_ntt_needs_all_bytes.
 Print Assumptions C14_sample_in_ball_reads_nothing.
 Print Assumptions C14_single_signing_attempt.
+(* T2: the XOF plumbing and the samplers of hashing.rs have the structure the model mirrors *)
+Require F204.Proofs.SourcePins.
+Check F204.Proofs.SourcePins.hashing_skeleton_pinned.
